@@ -177,7 +177,13 @@ def evaluate(s, rec):
         # ---- statistics block and JSON
         if good and not r.get('ok'):
             # iterations succeeded and left rows, yet the run ends without describing them
-            bad('no_summary_although_rows_exist', {'rows': len(good), 'error': str(r.get('error'))[:300], 'n_outputs': len(s['outputs'])})
+            err = str(r.get('error'))
+            kind = ('histogram_index_error' if 'IndexError: index -9223372036854775808' in err else
+                    'no_results_message' if 'No MC results generated' in err else 'other')
+            cols = list(zip(*[p[0] for p in good]))
+            huge_const = any(len(set(c)) == 1 and abs(float(c[0])) >= 2 ** 52 for c in cols)
+            bad('no_summary_although_rows_exist', {'rows': len(good), 'error': err[:300], 'n_outputs': len(s['outputs'])},
+                error_kind=kind, constant_output_beyond_2e52=str(huge_const))
         if good and r.get('ok'):
             try:
                 arr = np.array([[float(o.replace(',', '')) for o in p[0]] for p in good])
